@@ -196,3 +196,40 @@ pub proof fn lemma_class_piece_prefix(p2: Seq<u8>, cs: Seq<ClassInProgress>, i: 
     lemma_prefix_of_concat(p2 + classes_bytes(cs, i + 1), classes_suffix(cs, i + 1, nn));
     lemma_prefix_trans(p2 + classes_bytes(cs, i + 1), p2 + classes_bytes(cs, nn), canon);
 }
+
+// cumulative prefix number k of the canonical layout of (cs, strs)
+pub open spec fn tail_prefix(k: int, cs: Seq<ClassInProgress>, strs: Seq<u8>) -> Seq<u8> {
+    let nn = cs.len() as int; let hb = hdr_bytes(header_of(cs, strs)); let cb = classes_bytes(cs, nn);
+    let mb = members_bytes(all_members(cs, nn)); let pb = members_bytes(all_by_params(cs, nn));
+    layout_prefix(k, hb, zeros(pad_len(hb.len() as int)), cb, zeros(pad_len(cb.len() as int)), mb, zeros(pad_len(mb.len() as int)), pb, zeros(pad_len(pb.len() as int)), strs)
+}
+
+pub proof fn lemma_pad_arith(a: int, b: int, off: int)
+    requires a >= 0, b >= 0, a % 8 == 0, off == (a + b) % 8,
+    ensures pad_len(off) == pad_len(b), (a + b + pad_len(b)) % 8 == 0, 0 <= pad_len(b) < 8,
+{}
+// every even cumulative prefix of the layout (header+pad, +classes+pad, ...) ends on an 8-byte boundary
+pub proof fn lemma_tail_aligned(cs: Seq<ClassInProgress>, strs: Seq<u8>)
+    ensures
+        tail_prefix(0, cs, strs).len() % 8 == 0, tail_prefix(2, cs, strs).len() % 8 == 0, tail_prefix(4, cs, strs).len() % 8 == 0,
+        tail_prefix(6, cs, strs).len() % 8 == 0, tail_prefix(8, cs, strs).len() % 8 == 0,
+{
+    let nn = cs.len() as int; let hb = hdr_bytes(header_of(cs, strs)); let cb = classes_bytes(cs, nn);
+    let mb = members_bytes(all_members(cs, nn)); let pb = members_bytes(all_by_params(cs, nn));
+    let z1 = zeros(pad_len(hb.len() as int)); let z2 = zeros(pad_len(cb.len() as int)); let z3 = zeros(pad_len(mb.len() as int)); let z4 = zeros(pad_len(pb.len() as int));
+    reveal_with_fuel(layout_prefix, 10);
+    let l0 = layout_prefix(0, hb, z1, cb, z2, mb, z3, pb, z4, strs).len() as int;
+    let l2 = layout_prefix(2, hb, z1, cb, z2, mb, z3, pb, z4, strs).len() as int;
+    let l4 = layout_prefix(4, hb, z1, cb, z2, mb, z3, pb, z4, strs).len() as int;
+    let l6 = layout_prefix(6, hb, z1, cb, z2, mb, z3, pb, z4, strs).len() as int;
+    let l8 = layout_prefix(8, hb, z1, cb, z2, mb, z3, pb, z4, strs).len() as int;
+    assert(l0 == 0);
+    assert(l2 == l0 + hb.len() + pad_len(hb.len() as int));
+    lemma_pad_arith(l0, hb.len() as int, (l0 + hb.len()) % 8);
+    assert(l4 == l2 + cb.len() + pad_len(cb.len() as int));
+    lemma_pad_arith(l2, cb.len() as int, (l2 + cb.len()) % 8);
+    assert(l6 == l4 + mb.len() + pad_len(mb.len() as int));
+    lemma_pad_arith(l4, mb.len() as int, (l4 + mb.len()) % 8);
+    assert(l8 == l6 + pb.len() + pad_len(pb.len() as int));
+    lemma_pad_arith(l6, pb.len() as int, (l6 + pb.len()) % 8);
+}
